@@ -141,6 +141,11 @@ func solveFile(path string, timeoutS int, cross bool) SolveResult {
 	return last
 }
 
+// illSorted: the solver rejected the script itself (sort or parse error), as opposed to failing to decide it
+func illSorted(out string) bool {
+	return strings.Contains(out, "are incompatible") || strings.Contains(out, "Sort mismatch") || strings.Contains(out, "sort mismatch") || strings.Contains(out, "unknown constant") || strings.Contains(out, "invalid function application")
+}
+
 func firstLine(s string) string {
 	s = strings.TrimSpace(s)
 	if i := strings.IndexByte(s, '\n'); i >= 0 {
@@ -246,6 +251,14 @@ func solveAll1(jobs []*job, timeoutS int, cross bool, workers int) {
 					r.Solver += "+sliced"
 					j.res = r
 					return
+				}
+				if r.Status == "error" && illSorted(r.Output) {
+					// the contract no longer type-checks against the changed code (e.g. a pointer compared with a
+					// struct value): the solver rejects the script; this is deterministic, no later phase can help
+					if r2 := runSolver(context.Background(), solvers[0], j.path, min(3, timeoutS)); r2.Status == "error" && illSorted(r2.Output) {
+						j.res = r2
+						return
+					}
 				}
 			}
 		}
